@@ -105,6 +105,18 @@ int ops_core(int n, char **a) {
         printf("ok %d %d %" PRIx64 " %d %u 111\n", H3_EXPORT(isValidDirectedEdge)(h), (int)e1, o1, (int)e2, (unsigned)o2);
         return 1;
     }
+    if (isop(op, "genfn4") && n == 6) {
+        int verif_validateChildPos(int64_t p, H3Index parent, int r);
+        int64_t pos = (int64_t)pI(a[1]); H3Index parent = pH(a[2]); int r = (int)pI(a[3]); int k = (int)pI(a[4]);
+        H3Index o = pH(a[5]);
+        int64_t o1 = (int64_t)o, o2 = (int64_t)o;
+        H3Error e1 = H3_EXPORT(getNumCells)(r, &o1);
+        H3Error e2 = H3_EXPORT(maxGridDiskSize)(k, &o2);
+        // validateChildPos asserts (NEVER) that the child resolution is one the parent has
+        if (r >= H3_GET_RESOLUTION(parent) && r <= 15) printf("ok %d", verif_validateChildPos(pos, parent, r)); else printf("ok -");
+        printf(" %d %" PRIx64 " %d %" PRIx64 " 11\n", (int)e1, (uint64_t)o1, (int)e2, (uint64_t)o2);
+        return 1;
+    }
     if (isop(op, "ispent") && n == 2) { printf("ok %d\n", H3_EXPORT(isPentagon)(pH(a[1]))); return 1; }
     if (isop(op, "parent") && n == 3) {
         H3Index out = 0; H3Error e = H3_EXPORT(cellToParent)(pH(a[1]), (int)pI(a[2]), &out);
